@@ -25,6 +25,8 @@ var Deviants = []string{
 	"Stat:wrong-size", "Stat:wrong-mode", "Stat:wrong-name", "Stat:wrong-errkind", "Stat:wrong-errpath", "Stat:wrong-errtype",
 	"Chmod:noop", "Chmod:wrong-bits", "Chmod:wrong-errkind", "Chmod:wrong-errpath",
 	"Chtimes:noop", "Chtimes:wrong-time", "Chtimes:wrong-errkind",
+	"Mkdir:wrong-errop", "OpenFile:wrong-errop", "Open:wrong-errop", "Remove:wrong-errop", "Rename:wrong-errop", "Stat:wrong-errop", "Rename:wrong-errpath-new",
+	"Read:no-eof-after-data", "Seek:negative-accepted", "Truncate:negative-accepted", "ReadAt:negative-accepted", "WriteAt:negative-accepted",
 	"Read:wrong-bytes", "Read:late-eof", "Read:early-eof", "Read:offset-not-advanced", "Read:drops-byte",
 	"ReadAt:wrong-bytes", "ReadAt:ignores-offset", "ReadAt:no-error-on-short", "ReadAt:moves-offset",
 	"Write:noop", "Write:twice", "Write:wrong-bytes", "Write:wrong-n", "Write:offset-not-advanced",
@@ -94,6 +96,20 @@ func (d *DevFS) errDev(op string, err error) error {
 		case *hackpadfs.LinkError:
 			d.fire()
 			return &hackpadfs.LinkError{Op: e.Op, Old: "inner/" + e.Old, New: e.New, Err: e.Err}
+		}
+	case op + ":wrong-errop":
+		switch e := err.(type) {
+		case *hackpadfs.PathError:
+			d.fire()
+			return &hackpadfs.PathError{Op: e.Op + "x", Path: e.Path, Err: e.Err}
+		case *hackpadfs.LinkError:
+			d.fire()
+			return &hackpadfs.LinkError{Op: e.Op + "x", Old: e.Old, New: e.New, Err: e.Err}
+		}
+	case op + ":wrong-errpath-new":
+		if e, ok := err.(*hackpadfs.LinkError); ok {
+			d.fire()
+			return &hackpadfs.LinkError{Op: e.Op, Old: e.Old, New: e.Old, Err: e.Err}
 		}
 	case op + ":wrong-errtype":
 		switch e := err.(type) {
@@ -358,12 +374,13 @@ func (d *DevFS) Chtimes(name string, atime, mtime time.Time) error {
 // ---- files
 
 type devFile struct {
-	d        *DevFS
-	f        hackpadfs.File
-	name     string
-	closed   bool
-	lateEOF  int
-	openSize int64
+	d         *DevFS
+	f         hackpadfs.File
+	name      string
+	closed    bool
+	lateEOF   int
+	openSize  int64
+	delivered bool
 }
 
 // The three wrapper shapes keep the method set of the handle kind they wrap.
@@ -444,11 +461,18 @@ func (f *devFile) Read(p []byte) (int, error) {
 		}
 	}
 	n, err := f.f.Read(p)
+	if n > 0 {
+		f.delivered = true
+	}
 	switch {
 	case d.is("Read:wrong-bytes") && n > 0:
 		d.fire()
 		p[n-1] ^= 0x01
 	case d.is("Read:late-eof") && err == io.EOF && f.lateEOF < 2:
+		d.fire()
+		f.lateEOF++
+		return n, nil
+	case d.is("Read:no-eof-after-data") && err == io.EOF && f.delivered && f.lateEOF < 200:
 		d.fire()
 		f.lateEOF++
 		return n, nil
@@ -507,6 +531,9 @@ func (f *devFile) Seek(offset int64, whence int) (int64, error) {
 			}
 			return want, err
 		}
+	case d.is("Seek:negative-accepted") && whence == io.SeekStart && offset < 0:
+		d.fire()
+		return 0, nil
 	case d.is("Seek:end-from-start") && whence == io.SeekEnd && offset != 0:
 		d.fire()
 		whence = io.SeekStart
@@ -530,6 +557,9 @@ func (f *devFile) Truncate(size int64) error {
 			d.fire()
 			return nil
 		}
+	case d.is("Truncate:negative-accepted") && size < 0:
+		d.fire()
+		return nil
 	case d.is("Truncate:off-by-one") && size > 0:
 		d.fire()
 		size--
@@ -551,6 +581,10 @@ func (f *devFile) Chmod(mode hackpadfs.FileMode) error { return hackpadfs.ChmodF
 
 func (f *devFile) readAt(p []byte, off int64) (int, error) {
 	d := f.d
+	if d.is("ReadAt:negative-accepted") && off < 0 {
+		d.fire()
+		off = 0
+	}
 	if d.is("ReadAt:ignores-offset") && off > 0 {
 		d.fire()
 		off = 0
@@ -612,6 +646,9 @@ func (f *devFile) writeAt(p []byte, off int64) (int, error) {
 	case d.is("WriteAt:noop") && len(p) > 0 && off >= 0:
 		d.fire()
 		return len(p), nil
+	case d.is("WriteAt:negative-accepted") && off < 0:
+		d.fire()
+		off = 0
 	case d.is("WriteAt:ignores-offset") && off > 0:
 		d.fire()
 		off = 0
